@@ -342,6 +342,11 @@ def shard(shard_i, nshards, payload):
                 k = rng.randrange(len(text) + 1)
                 text = text[:k] + rng.choice(["?", "@", "~", "`", "é?"]) + text[k:]
                 kind += "+lexerr"
+            if i % 9 == 4:
+                # the document while it is being typed: cut off, and ending in a non-ASCII character without a line break
+                import hostile
+                text = hostile.truncate_with_tail(text, rng)
+                kind += "+tail"
             if i % 13 == 3:
                 # text handed over from memory (an editor buffer) may start with a byte order mark or another
                 # invisible character: it is not a token, and everything after it keeps its own position
